@@ -41,41 +41,59 @@ func c07Class(err error) []byte {
 // c07SigTable lists the (public key text, server, key id) triples for which VerifyJSON accepts
 // the signed object of a third-party invite, the way membershipAllowedFromThirdPartyInvite calls it.
 func c07SigTable(evJSON []byte, auths [][]byte) []byte {
-	table := [][]string{}
 	var ev struct {
-		Type    string          `json:"type"`
-		Content json.RawMessage `json:"content"`
+		Type    string `json:"type"`
+		Content struct {
+			TPI *struct {
+				Signed json.RawMessage `json:"signed"`
+			} `json:"third_party_invite"`
+		} `json:"content"`
 	}
 	if json.Unmarshal(evJSON, &ev) != nil || ev.Type != "m.room.member" {
 		return B("[]")
 	}
+	var evc struct {
+		Content json.RawMessage `json:"content"`
+	}
+	_ = json.Unmarshal(evJSON, &evc)
 	var mc gm.MemberContent
-	if json.Unmarshal(ev.Content, &mc) != nil || mc.ThirdPartyInvite == nil {
+	if json.Unmarshal(evc.Content, &mc) != nil || mc.ThirdPartyInvite == nil {
 		return B("[]")
 	}
-	signed, err := json.Marshal(mc.ThirdPartyInvite.Signed)
+	// what the library verifies: the struct marshalled again
+	signedLib, err := json.Marshal(mc.ThirdPartyInvite.Signed)
 	if err != nil {
 		return B("[]")
 	}
+	// what the rule speaks about: the signed object of the event as it stands
+	var signedRaw []byte
+	if ev.Content.TPI != nil {
+		signedRaw = ev.Content.TPI.Signed
+	}
+	// every key text that can be read, entry by entry
 	keyTexts := map[string]bool{}
 	for _, a := range auths {
 		var ae struct {
 			Type    string `json:"type"`
 			Content struct {
-				PublicKey  string `json:"public_key"`
-				PublicKeys []struct {
-					PublicKey string `json:"public_key"`
-				} `json:"public_keys"`
+				PublicKey  json.RawMessage   `json:"public_key"`
+				PublicKeys []json.RawMessage `json:"public_keys"`
 			} `json:"content"`
 		}
 		if json.Unmarshal(a, &ae) != nil || ae.Type != "m.room.third_party_invite" {
 			continue
 		}
 		for _, k := range ae.Content.PublicKeys {
-			keyTexts[k.PublicKey] = true
+			var entry struct {
+				PublicKey string `json:"public_key"`
+			}
+			if json.Unmarshal(k, &entry) == nil {
+				keyTexts[entry.PublicKey] = true
+			}
 		}
-		if ae.Content.PublicKey != "" {
-			keyTexts[ae.Content.PublicKey] = true
+		var single string
+		if json.Unmarshal(ae.Content.PublicKey, &single) == nil && single != "" {
+			keyTexts[single] = true
 		}
 	}
 	texts := make([]string, 0, len(keyTexts))
@@ -83,38 +101,51 @@ func c07SigTable(evJSON []byte, auths [][]byte) []byte {
 		texts = append(texts, k)
 	}
 	sort.Strings(texts)
-	for _, kt := range texts {
-		var raw spec.Base64Bytes
-		if raw.Decode(kt) != nil || len(raw) != ed25519.PublicKeySize {
-			continue
+	verify := func(signed []byte) [][]string {
+		table := [][]string{}
+		if len(signed) == 0 {
+			return table
 		}
-		doms := make([]string, 0)
-		for d := range mc.ThirdPartyInvite.Signed.Signatures {
-			doms = append(doms, d)
-		}
-		sort.Strings(doms)
-		for _, d := range doms {
-			kids := make([]string, 0)
-			for kid := range mc.ThirdPartyInvite.Signed.Signatures[d] {
-				kids = append(kids, kid)
+		for _, kt := range texts {
+			var raw spec.Base64Bytes
+			if raw.Decode(kt) != nil || len(raw) != ed25519.PublicKeySize {
+				continue
 			}
-			sort.Strings(kids)
-			for _, kid := range kids {
-				ok := func() (ok bool) {
-					defer func() {
-						if recover() != nil {
-							ok = false
-						}
+			doms := make([]string, 0)
+			for d := range mc.ThirdPartyInvite.Signed.Signatures {
+				doms = append(doms, d)
+			}
+			sort.Strings(doms)
+			for _, d := range doms {
+				kids := make([]string, 0)
+				for kid := range mc.ThirdPartyInvite.Signed.Signatures[d] {
+					kids = append(kids, kid)
+				}
+				sort.Strings(kids)
+				for _, kid := range kids {
+					ok := func() (ok bool) {
+						defer func() {
+							if recover() != nil {
+								ok = false
+							}
+						}()
+						return gm.VerifyJSON(d, gm.KeyID(kid), ed25519.PublicKey(raw), signed) == nil
 					}()
-					return gm.VerifyJSON(d, gm.KeyID(kid), ed25519.PublicKey(raw), signed) == nil
-				}()
-				if ok {
-					table = append(table, []string{kt, d, kid})
+					if ok {
+						table = append(table, []string{kt, d, kid})
+					}
 				}
 			}
 		}
+		return table
 	}
-	b, _ := json.Marshal(table)
+	lib, rawT := verify(signedLib), verify(signedRaw)
+	bl, _ := json.Marshal(lib)
+	br, _ := json.Marshal(rawT)
+	if string(bl) == string(br) {
+		return bl
+	}
+	b, _ := json.Marshal(J{"lib": lib, "raw": rawT})
 	return b
 }
 
@@ -907,8 +938,11 @@ func c07GenCreate(c *Ctx) {
 			{"m.federate": "yes"}, {"predecessor": "x"}, {"type": 5},
 		}
 		for _, ce := range contents {
-			for _, variant := range []string{"ok", "ok", "sk-x", "sk-none", "prev", "domain", "room-id", "no-room-id", "bad-sender", "domainless", "content-null", "content-arr"} {
-				if variant != "ok" && c.Rng.Intn(3) != 0 {
+			for _, variant := range []string{"ok", "ok", "sk-x", "sk-none", "prev", "domain", "room-id", "no-room-id", "null-room-id", "bad-sender", "domainless", "content-null", "content-arr"} {
+				if variant != "ok" && variant != "no-room-id" && variant != "null-room-id" && c.Rng.Intn(3) != 0 {
+					continue
+				}
+				if (variant == "no-room-id" || variant == "null-room-id") && (!fmt3 || len(ce) != 0) {
 					continue
 				}
 				n++
@@ -947,6 +981,8 @@ func c07GenCreate(c *Ctx) {
 					if fmt3 {
 						extra["room_id"] = ""
 					}
+				case "null-room-id":
+					extra["room_id"] = json.RawMessage("null")
 				case "bad-sender":
 					sender = pick(c.Rng, []string{"creator", "@creator", "@c:h s"})
 				case "domainless":
@@ -1051,7 +1087,8 @@ func c07GenThirdParty(c *Ctx) {
 		for _, scn := range []string{"good", "good-second-key", "good-urlsafe", "wrong-key", "tampered", "mxid-mismatch", "no-event", "wrong-token",
 			"no-sigs", "non-ed-keyid", "banned", "other-sender", "single-public-key", "no-keys", "join-with-tpi", "sender-not-joined",
 			"bad-keys-type", "bad-signed-type", "tpi-null", "tpi-empty", "target-joined", "remote-unfederated", "leave-with-tpi",
-			"empty-token", "missing-token", "empty-token-join"} {
+			"empty-token", "missing-token", "empty-token-join",
+			"extra-signed-member", "one-undecodable-key", "one-junk-key-entry"} {
 			n++
 			k1, k2 := c07NewKey(c.Rng), c07NewKey(c.Rng)
 			sender, target, token := "@alice:hs1", "@bob:hs3", "tok"+fmt.Sprint(n)
@@ -1063,6 +1100,10 @@ func c07GenThirdParty(c *Ctx) {
 				token = ""
 			}
 			signedObj := J{"mxid": target, "token": token}
+			if scn == "extra-signed-member" {
+				// identity servers may sign further members; the signature covers the whole object
+				signedObj["sender"] = sender
+			}
 			if scn == "missing-token" {
 				token = ""
 				signedObj = J{"mxid": target}
@@ -1107,6 +1148,10 @@ func c07GenThirdParty(c *Ctx) {
 				tpiContent = J{"display_name": "b", "public_key": enc(k1.pub)}
 			case "no-keys":
 				tpiContent["public_keys"] = []interface{}{}
+			case "one-undecodable-key":
+				tpiContent["public_keys"] = []interface{}{J{"public_key": "!!!notbase64"}, J{"public_key": enc(k1.pub)}}
+			case "one-junk-key-entry":
+				tpiContent["public_keys"] = []interface{}{J{"public_key": 5}, J{"public_key": enc(k1.pub)}}
 			case "join-with-tpi", "empty-token-join":
 				newMem = "join"
 			case "leave-with-tpi":
@@ -1535,6 +1580,7 @@ func c07All(c *Ctx) {
 	e := &c08Env{c: c, propOp: c07PropOp}
 	c08GenExhaustive(e)
 	c08GenSpellings(e)
+	c08GenFoldedNames(e)
 	c08GenHistories(e, c.Scale(40, 600))
 	c07DepartureHistogram(c)
 }
